@@ -81,6 +81,8 @@ def tags_of(beh):
                     shape.append("A" if ai_pending else "h")
                     ai_pending = False
             t.add("%s-range:%s" % (k, "".join(shape)))
+        if k in ("CherryPickR", "CherryPickManyR", "RebaseR"):
+            t.add("%s:%s:%s" % (k, a["res"], a["how"]))
         if k == "IRebase":
             t.add("irebase:%s" % "/".join(str(len(g)) for g in a["plan"]) + ":n%d" % a["n"])
         if k in ("Rebase", "CherryPick", "Amend", "MergeSquash", "Switch", "IRebase", "CherryPickMany"):
